@@ -29,45 +29,71 @@ PUBLIC_OK = {
 SHARED_OK = {'fallbackMarkers': 'fallback markers accompany both parts by definition'}
 
 
+MODES = ['SceAll', 'ScePublic', 'SceSensitive']
+_reach = {}
+
+
+def _is_mode_var(f, nid):
+    n = f.nodes[f.skip(nid)]
+    return n['k'] == 'var' and (n.get('vk') == 'param' or n.get('outer')) and 'SceMode' in (n.get('t') or '')
+
+
+def _mode_reach(fn):
+    """{mode: blocks of fn reachable when its SceMode parameter / captured mode has that value}: the mode guards are decided by
+    evaluating them (operator& is looked into; named bool locals, ==-chains and switches are folded), not by their spelling"""
+    if fn.id not in _reach:
+        from .. import cfgx
+        r = {}
+        for m in MODES:
+            def custom(f, nid, st, m=m):
+                if _is_mode_var(f, nid):
+                    return (('enum', 'QXmpp::' + m),)
+                return None
+            ev = cfgx.Evaluator(fn, {}, custom=custom)
+            r[m] = cfgx.reachable_blocks(fn, lambda f, c, st, ev=ev: ev.ev(c, st))
+        _reach[fn.id] = r
+    return _reach[fn.id]
+
+
 def region_of(fn, nid):
-    """'Public' | 'Sensitive' | 'PublicOnly' | 'Shared' from the mode guards dominating the node"""
-    pub = sens = pubonly = False
-    for c, pol in fn.atomic_assertions_at(nid):
-        if pol is not True:
-            continue
-        n = fn.nodes[fn.skip(c)]
-        txt = fn.fmt(c)
-        if n['k'] == 'call' and n.get('op') == '&' and fn.cname(n) == 'QXmpp::operator&':
-            if txt.endswith('& QXmpp::ScePublic)'):
-                pub = True
-            elif txt.endswith('& QXmpp::SceSensitive)'):
-                sens = True
-        bo = fn.binop(c)
-        if bo and bo[0] == '==' and 'QXmpp::ScePublic' in txt and n['k'] != 'call':
-            pubonly = True
-        elif bo and bo[0] == '==' and txt.endswith('== QXmpp::ScePublic)'):
-            pubonly = True
-    if pub and sens:
-        return 'Both?'
-    if pub:
-        return 'PublicOnly' if pubonly else 'Public'
-    if sens:
-        return 'Sensitive'
-    return 'Shared'
+    """'Public' | 'Sensitive' | 'PublicOnly' | 'Shared' | 'Both?': the set of modes under which the node is reachable"""
+    pos = fn.pos(nid)
+    par = fn.parents()
+    while pos is None and par.get(nid) is not None:
+        nid = par[nid]
+        pos = fn.pos(nid)
+    if pos is None:
+        return 'Shared'
+    r = _mode_reach(fn)
+    modes = frozenset(m for m in MODES if pos[0] in r[m])
+    return {frozenset(MODES): 'Shared', frozenset(('SceAll', 'ScePublic')): 'Public', frozenset(('ScePublic',)): 'PublicOnly',
+            frozenset(('SceAll', 'SceSensitive')): 'Sensitive', frozenset(('SceSensitive',)): 'Sensitive'}.get(modes, 'Both?')
 
 
-def field_regions(prog, fn, want):
-    """{field: {region: [node ids]}} for QXmppMessagePrivate fields read (want='read') or written (want='write')"""
-    out = {}
+def _combine(outer, inner):
+    """region of something inside a helper/lambda (inner, relative to its own mode guards) that is used at a place of region outer"""
+    if inner == 'Shared':
+        return outer
+    if outer == 'Shared' or outer == inner:
+        return inner
+    if {outer, inner} == {'Public', 'PublicOnly'}:
+        return 'PublicOnly'
+    return 'Both?'
+
+
+def field_regions(prog, fn, want, outer='Shared', depth=0, out=None):
+    """{field: {region: [(fn, node)]}} for QXmppMessagePrivate fields read (want='read') or written (want='write') by fn, its lambdas,
+    the accessors it calls on the message and the same-file helpers it hands the message (or its private data) to"""
+    out = out if out is not None else {}
     for f in prog.closure(fn):
-        base_region = None
+        base_region = outer
         if f.is_lambda:
             # a lambda inherits the region of the place it is created in
             parent = prog.fns.get(f.parent_id)
             if parent:
                 for i, n in parent.all_nodes('lambda'):
                     if f.id in n.get('fns', []):
-                        base_region = region_of(parent, i)
+                        base_region = _combine(outer, region_of(parent, i))
         for i, n in enumerate(f.nodes):
             if n['k'] != 'mem' or not n.get('f', '').startswith(PRIV):
                 continue
@@ -75,29 +101,60 @@ def field_regions(prog, fn, want):
             is_write = kind in ('write', 'addr')
             if (want == 'write') != is_write:
                 continue
-            reg = region_of(f, i)
-            if reg == 'Shared' and base_region:
-                reg = base_region
-            out.setdefault(n['name'], {}).setdefault(reg, []).append((f, i))
-        # accessors called on this object: attribute the fields they touch to the call site (summary, depth 1)
+            out.setdefault(n['name'], {}).setdefault(_combine(base_region, region_of(f, i)), []).append((f, i))
         for i, n in f.calls():
             s = f.sym(n)
-            if not s or s.get('record') != MSG or n.get('obj') is None or f.nodes[f.skip(n['obj'])]['k'] != 'this':
+            if not s or n.get('op'):
                 continue
             if s['qname'] in (MSG + '::parseExtension', MSG + '::serializeExtensions'):
                 continue
-            for g in prog.callee_fns(f, n):
-                for j, m in enumerate(g.nodes):
-                    if m['k'] != 'mem' or not m.get('f', '').startswith(PRIV):
+            here = _combine(base_region, region_of(f, i))
+            if s.get('record') == MSG and n.get('obj') is not None and f.nodes[f.skip(n['obj'])]['k'] == 'this':
+                # accessors called on this object: attribute the fields they touch to the call site (summary, depth 1)
+                for g in prog.callee_fns(f, n):
+                    for j, m in enumerate(g.nodes):
+                        if m['k'] != 'mem' or not m.get('f', '').startswith(PRIV):
+                            continue
+                        kind, how = classify_use(g, j)
+                        is_write = kind in ('write', 'addr')
+                        if (want == 'write') != is_write:
+                            continue
+                        out.setdefault(m['name'], {}).setdefault(here, []).append((f, i))
+            elif depth < 2:
+                # an extracted part of the codec: a same-file function that is handed the message or its private data
+                for g in prog.callee_fns(f, n):
+                    if g.file != fn.file or g.entry is None or g.id == f.id or not g.file.endswith('QXmppMessage.cpp'):
                         continue
-                    kind, how = classify_use(g, j)
-                    is_write = kind in ('write', 'addr')
-                    if (want == 'write') != is_write:
+                    if not any('QXmppMessage' in (p.get('t') or '') for p in g.params):
                         continue
-                    reg = region_of(f, i)
-                    if reg == 'Shared' and base_region:
-                        reg = base_region
-                    out.setdefault(m['name'], {}).setdefault(reg, []).append((f, i))
+                    for k, p in enumerate(g.params):
+                        if 'SceMode' in (p.get('t') or '') and not (k < len(n.get('args', [])) and _is_mode_var(f, n['args'][k])):
+                            raise AnalysisBroken('C17.R2: %s is called with a mode that is not the caller\'s own mode: %s' % (g.qname, f.fmt(i)[:80]))
+                    field_regions(prog, g, want, here, depth + 1, out)
+    return out
+
+
+def _codec_scope(prog, fn, outer='Shared', depth=0):
+    """[(function, region it runs in)]: fn, its lambdas and the same-file helpers it hands the message to (same walk as field_regions)"""
+    out = []
+    for f in prog.closure(fn):
+        base_region = outer
+        if f.is_lambda:
+            parent = prog.fns.get(f.parent_id)
+            if parent:
+                for i, n in parent.all_nodes('lambda'):
+                    if f.id in n.get('fns', []):
+                        base_region = _combine(outer, region_of(parent, i))
+        out.append((f, base_region))
+        if depth < 2:
+            for i, n in f.calls():
+                s = f.sym(n)
+                if not s or n.get('op') or s.get('record') == MSG:
+                    continue
+                for g in prog.callee_fns(f, n):
+                    if g.file == fn.file and g.entry is not None and g.id != f.id and g.file.endswith('QXmppMessage.cpp') \
+                            and any('QXmppMessage' in (p.get('t') or '') for p in g.params):
+                        out += _codec_scope(prog, g, _combine(base_region, region_of(f, i)), depth + 1)
     return out
 
 
@@ -191,14 +248,14 @@ def run(prog, run):
 
     # the only <body> in the public region is the explicit fallback
     r2b = run.rule('C17.R2b', 'a <body/>, <subject/> or <thread/> element written outside the Sensitive guard carries only the explicit e2ee fallback text', floor=1)
-    for f in prog.closure(ser):
+    for f, base in _codec_scope(prog, ser):
         for i, n in f.calls():
             cn = f.cname(n)
             if cn in ('QXmlStreamWriter::writeTextElement', 'QXmlStreamWriter::writeStartElement', 'QXmpp::Private::writeXmlTextElement',
                       'QXmpp::Private::writeOptionalXmlTextElement'):
                 names = [f.strval(a) for a in n['args'][:2]]
                 if any(x in ('body', 'subject', 'thread') for x in names if x):
-                    reg = region_of(f, i)
+                    reg = _combine(base, region_of(f, i))
                     if reg == 'Sensitive':
                         continue
                     if f.is_lambda:
